@@ -20,6 +20,16 @@ func (ex *Exec) callBuiltin(name string, args []Val, c *ssa.CallCommon) Val {
 			}
 			return goInt(len(x.B))
 		case Slice:
+			if st, ok := c.Args[0].Type().Underlying().(*types.Slice); ok && x.A != nil {
+				if b, ok := st.Elem().Underlying().(*types.Basic); ok && b.Kind() == types.Uint8 {
+					// a byte slice made from a formatted string (unsafe.Slice, json.Marshal) is only good for handing on whole
+					for _, e := range (*x.A)[x.Off : x.Off+x.Len] {
+						if i, ok := e.(Int); ok && i.W >= wDec {
+							unsupported("len of a byte slice holding a formatted (rope) segment")
+						}
+					}
+				}
+			}
 			return goInt(x.Len)
 		case *MapObj:
 			if x == nil {
